@@ -56,6 +56,24 @@ Definition set_message_minimal_width (g_minimalMessageWidth : Z) (w : Z) : Z :=
   else g_minimalMessageWidth.
 Definition translated_set_message_minimal_width := true.
 
+(* .IsAnyBitsSet   *)
+Definition is_any_bits_set (g_flags : Z) (f : Z) : bool :=
+  (negb ((Z.land g_flags f) =? 0)).
+Definition translated_is_any_bits_set := true.
+
+(* .IsAllBitsSet   *)
+Definition is_all_bits_set (g_flags : Z) (f : Z) : bool :=
+  ((Z.land g_flags f) =? f).
+Definition translated_is_all_bits_set := true.
+
+(* .AddFlags  (returns flags) *)
+   (* no tracked effect (declared): Verbose('add a flag', 'flag', f) *)
+Definition add_flags (g_flags : Z) (flagsToAdd : list Z) : Z :=
+  let g_flags := fold_left (fun g_flags (f : Z) => let g_flags := (Z.lor g_flags f) in
+    g_flags) flagsToAdd g_flags in
+  g_flags.
+Definition translated_add_flags := true.
+
 (* Entry.printImpl  (the statements after the blank-line rule; returns (deliveries, context); None = panic) *)
    (* argument not kept by the model (declared): pc.kvps *)
 Definition print_impl {R E D : Type} (f_begin f_timestamp f_name f_severity f_msg f_first f_pc f_rest : pcs R -> pcs R) (f_attrs : pcs R -> E * pcs R) (f_errdump : pcs R -> E -> pcs R) (f_end : pcs R -> bool -> pcs R) (f_bytes : pcs R -> bytes) (d_printout : Z -> bytes -> D) (m_mLevelColors : list (Z * list Z)) (g_flags : Z) (pc : pcs R) (tr_ : list D) : option (list D * pcs R) :=
